@@ -18,7 +18,10 @@ from icalendar import Calendar, Event, Todo, Timezone, FreeBusy, Component, Alar
 from icalendar.timezone import tzp
 
 IDMAP = {"K1": "Europe/Berlin", "K2": "America/New_York", "U": "Custom/Nowhere",
-         "K3": "Asia/Tokyo", "K4": "Africa/Cairo", "U2": "My Own Zone"}
+         "K3": "Asia/Tokyo", "K4": "Africa/Cairo", "U2": "My Own Zone",
+         # ids the provider resolves under another spelling: the VTIMEZONE that closes the gap must carry THIS spelling
+         "K5": "W. Europe Standard Time", "K6": "/America/New_York", "K7": "US/Eastern"}
+ALIAS = {"K5", "K6", "K7"}
 REV = {v: k for k, v in IDMAP.items()}
 F, L_ = date(2020, 1, 1), date(2021, 6, 1)
 CUSTOM = """BEGIN:VTIMEZONE\r\nTZID:%s\r\nBEGIN:STANDARD\r\nDTSTART:19700101T000000\r\nTZOFFSETFROM:+0200\r\nTZOFFSETTO:+0200\r\nTZNAME:CST\r\nEND:STANDARD\r\nEND:VTIMEZONE\r\n"""
@@ -47,7 +50,7 @@ def zoned(idk, n=0):
 
 def add_use(cal, idk, site, n):
     tzid = IDMAP[idk]
-    known = idk.startswith("K")
+    known = idk.startswith("K") and idk not in ALIAS     # alias ids are attached as TZID parameters, like unknown ones
     dt = tzp.localize(zoned(idk, n), tzid) if known else zoned(idk, n)
     params = None if known else {"TZID": tzid}
     if site == "single":
@@ -191,7 +194,7 @@ def run(ctx: Ctx):
     # ------------------------------------------------------------- RECORD: richer calendars
     ev, meta = [], []
     n = 60 if ctx.quick else 600
-    ids = ["K1", "K2", "K3", "K4", "U", "U2"]
+    ids = ["K1", "K2", "K3", "K4", "U", "U2", "K5", "K6", "K7"]
     sites = ["single", "list", "period", "nested", "due", "second-of-many"]
     try:
         for i in range(n):
@@ -209,10 +212,50 @@ def run(ctx: Ctx):
     finally:
         tzp.use_default()
     ctx.sample({"trace_event": ev[0]})
-    cfg = cfg_text(spec="Spec2", constants={"Ids": set(ids), "Known": {"K1", "K2", "K3", "K4"}, "Sites": set(sites),
+    cfg = cfg_text(spec="Spec2", constants={"Ids": set(ids), "Known": {"K1", "K2", "K3", "K4", "K5", "K6", "K7"}, "Sites": set(sites),
                                            "MaxUses": 9, "MaxTz": 2, "Old": False})
     for idx, clause, known in ctx.validate_trace("Trace_UsedTzids", ev, cfg, chunk=5000, timeout=1200):
         ctx.fail(clause, meta[idx], ev[idx]["seq"], None)
+    # ------------------------------------------------------------- histories in which the provider learns / forgets custom ids
+    rh0 = ctx.mc("MC_UsedTzidsHist", cfg_text(spec="Spec", constants={"Iana": {"K1"}, "Custom": {"U"}, "MaxOps": 4, "NegMemo": True},
+                                              invariants=["InvClosed"]), expect_ok=False, count=False, workers=1, timeout=300)
+    if rh0.violated != "InvClosed":
+        raise Machinery("a cached 'unknown' verdict should be refuted against InvClosed")
+    hvecs = []
+    for mo in (3, 4, 5) if ctx.quick else (3, 4, 5, 6):
+        rh = ctx.mc("MC_UsedTzidsHist", cfg_text(spec="Spec", constants={"Iana": {"K1"}, "Custom": {"U", "U2"}, "MaxOps": mo, "NegMemo": False},
+                                                 invariants=["InvClosed", "InvOnlyUsed", "Vec"]), workers=2, timeout=600)
+        hvecs += rh.prints
+    if len(hvecs) < 40:
+        raise Machinery(f"too few learn/forget histories {len(hvecs)}")
+    try:
+        for prov in ("zoneinfo", "pytz"):
+            for v in hvecs:
+                tzp.use(prov)
+                cal = Calendar()
+                n = 0
+                try:
+                    for op in v["hist"]:
+                        if op["op"] == "use":
+                            n += 1
+                            add_use(cal, op["id"], "single" if n % 2 else "due", n)
+                        elif op["op"] == "learn":
+                            Calendar.from_ical("BEGIN:VCALENDAR\r\n" + CUSTOM % IDMAP[op["id"]] + "END:VCALENDAR\r\n")
+                        elif op["op"] == "forget":
+                            tzp.use(prov)
+                        else:
+                            cal.add_missing_timezones(first_date=F, last_date=L_)
+                    o = observe(cal)
+                except Exception as e:   # noqa: BLE001
+                    o = {"missing": ["EXC:" + type(e).__name__], "present": {}}
+                ctx.case(("hist", prov, repr(v["hist"])), any(op["op"] in ("learn", "forget") for op in v["hist"]))
+                case = {"hist": v["hist"], "provider": prov}
+                if o["missing"] != sorted(v["missing"]):
+                    ctx.fail("P:C18:missing-after-history", case, o["missing"], sorted(v["missing"]))
+                elif sorted(k for k, c in o["present"].items() if c) != sorted(v["present"]) or any(c > 1 for c in o["present"].values()):
+                    ctx.fail("P:C18:closure-after-history", case, o["present"], sorted(v["present"]))
+    finally:
+        tzp.use_default()
     ctx.assumptions += ["known ids: IANA zones of the active provider; unknown ids are attached as TZID parameters on floating values",
                         "the process-wide cache of parsed VTIMEZONEs is emptied before each case (history dependence is C12's subject)",
                         "add_missing_timezones is called with a short date window to keep generation fast (window choice is C13's subject)"]
